@@ -2176,6 +2176,11 @@ pub fn run_fault_one(ctx: &mut Ctx, scn: &StoreScn) {
         ctx.sig(mix(f.op as u64, mix(during, mix(name.ends_with(".hint") as u64, mix(f.errno as u64, f.short.is_some() as u64)))));
         ctx.out.nontrivial = true;
     }
+    if ctx.check == "C14" {
+        ctx.sim.probe("file_discipline_judged_after_failed_calls");
+        check_discipline(ctx, &rel, scn);
+        check_shadow_vs_disk(ctx, &rel);
+    }
     remove_dir(ctx, &rel);
 }
 
